@@ -172,6 +172,10 @@ if HAS_ZSTD:
         def decompress(self, data: bytes) -> bytes:
             if not data:
                 return b""
+            if self._obj.eof:
+                # The previous frame ended exactly at the end of the last input;
+                # a decompressobj cannot be used again after that.
+                self._obj = zstd.ZstdDecompressor().decompressobj()
             data_parts = [self._obj.decompress(data)]
             while self._obj.eof and self._obj.unused_data:
                 unused_data = self._obj.unused_data
